@@ -300,6 +300,11 @@ def pr(P, n, ind=0):
         return f"({E(d['a'])} {d['op']} {E(d['b'])})"
     if t=='unary':
         sp=' ' if d['op'] in('typeof','void') else ''
+        a=P['nodes'][d['a']-1]
+        if d['op']=='typeof' and a['ty']=='var':
+            # `typeof x` must not throw for an unresolvable x, and an erased assertion around x must not change that
+            if DECO and not av('typeof_asserted_reference') and DECO.random()<0.3: use('typeof_asserted_reference'); return f"(typeof ({a['name']} as any))"
+            return f"(typeof {a['name']})"
         return f"({d['op']}{sp}{E(d['a'])})"
     if t=='update': return f"(++{d['name']})".replace('++',d['op']) if d['prefix'] else f"({d['name']}{d['op']})"
     if t=='cond': return f"({E(d['a'])} ? {E(d['b'])} : {E(d['c'])})"
